@@ -233,6 +233,9 @@ func Instantiate(id, origin string, sh Shape, r *rand.Rand) *Case {
 			out.WriteString("// pad " + fmt.Sprint(pad) + "\n")
 		}
 		out.WriteString("/** @param? s */\n{template .fail}\nbefore\n{foreach $i in $s}{$i}{/foreach}\n{/template}\n")
+		// header params (no soydoc), required / optional / with a default: the compiler moves them
+		// out of the template body, which must not make a second compilation see another template
+		out.WriteString("{template .hdr}\n{@param s: string}\n{@param? n: int}\n{@param? dflt: string = 'dv'}\nhdr {$s} {$n ?: 0} {$dflt ?: 'none'}\n{/template}\n")
 		main := &body{used: map[string]bool{}}
 		main.add("file " + ns + ": ")
 		has := map[int]bool{}
@@ -252,6 +255,10 @@ func Instantiate(id, origin string, sh Shape, r *rand.Rand) *Case {
 			}
 		}
 		if has[2] {
+			// functions applied to compile-time values that are reference types (map / list valued
+			// globals): rendering must not change them (A, B, A again; fresh compilations)
+			main.add("{let $am: augmentMap(['base': 'b', 'zeta0': 'own'], GM_MAP)/}{length(keys($am))}/{length(keys(GM_MAP))}/{length(app.list)}" +
+				"{length(keys(augmentMap(GM_MAP, ['extra': 1])))}{call .hdr data=\"augmentMap(['s': 'from-data'], GM_MAP)\"/}")
 			off := r.Intn(len(soyFuncs))
 			for k := 0; k < fan; k++ {
 				main.add(soyFuncs[(off+k)%len(soyFuncs)])
